@@ -102,18 +102,18 @@ CLAIMED = {
 STRUCT = (" Beyond the unstructured search, closed structured families (DESIGN.md 13.3; each enumerated completely and listed with its size in the evidence's coverage.bound) "
           "take the same oracle to taller and deeper histories: ")
 SUFFIX = {
-    "C01": STRUCT + "11-13 and 16-65 leaves with aligned-union / window / interval (gap) deletion sets, every two-deletion-block history on 7-9 leaves, 255..1025 leaves, long chains, forests restored from bytes, instances queried at intermediate states, descending target lists and trailing unused proof hashes, Stump / partial forests started from bare roots of accumulators with up to 2^63-4 leaves, and the many-roots family (2^16-1 .. 2^18-1 leaves: 16-18 trees, trees of 17 rows, 131071 additions in one block).",
-    "C02": STRUCT + "the C01 families (many-roots family included) with the proof oracle, forests restored from bytes, full forests started from bare roots, instances queried at intermediate states.",
+    "C01": STRUCT + "11-13 and 16-65 leaves with aligned-union / window / interval (gap) deletion sets, every two-deletion-block history on 7-9 leaves, 255..1025 leaves, long chains, forests restored from bytes, instances queried at intermediate states, descending target lists and trailing unused proof hashes, Stump / partial forests started from bare roots of accumulators with up to 2^63-4 leaves, and the many-roots family (2^16-1 .. 2^18-1 leaves: 16-18 trees, trees of 17 rows, 131071 additions in one block), and the multi-tree family (14-30 leaves in three or four trees, every tree independently losing nothing / its first leaf / its last leaf / all but the first / everything, then 0..3 additions).",
+    "C02": STRUCT + "the C01 families (many-roots family included) with the proof oracle, forests restored from bytes, full forests started from bare roots, instances queried at intermediate states, partial forests that verify-remember and prune (every subset of what is still cached).",
     "C06": STRUCT + "the C01 families each followed by one to four undos, descending target lists / trailing unused proof hashes on blocks, undos and Verify(remember), a cross-feature family (undo x Verify(remember) x restore), three undos in a row, partial forests from bare roots, the many-roots family.",
     "C10": STRUCT + "the C01 families (many-roots family included) with the look-up oracle and instances queried at intermediate states.",
-    "C07": STRUCT + "11-17 leaves (three blocks), aligned unions on 16-33 leaves with two-leaf remember sets, the interval (gap) family on 21/27 leaves, every two-deletion-block history on 8-9 leaves, 127..513 leaves, single blocks of 65535 / 65536 / 65537 additions, descending block targets and remember lists, bare roots of accumulators with up to 2^63-4 leaves.",
+    "C07": STRUCT + "11-17 leaves (three blocks), aligned unions on 16-33 leaves with two-leaf remember sets, the interval (gap) family on 21/27 leaves, every two-deletion-block history on 8-9 leaves, 127..513 leaves, single blocks of 65535 / 65536 / 65537 additions, descending block targets and remember lists, bare roots of accumulators with up to 2^63-4 leaves, the multi-tree family (14-31 leaves, 5^trees deletion sets).",
     "C08": STRUCT + "the C07 families, each undone block by block, and three undos in a row.",
     "C11": STRUCT + "the C07 families without remembering.",
-    "C09": STRUCT + "Verify(remember) with allocated-row targets, descending argument lists, 11-17 leaves (three blocks), aligned unions with undo, the interval (gap) family on 21 leaves, every two-deletion-block history on 7-8 leaves undone twice, large caches (257 .. 2600 leaves per Verify / Prune / block), blocks of 65536 additions, forests started from bare roots of accumulators with up to 2^63-4 leaves.",
+    "C09": STRUCT + "Verify(remember) with allocated-row targets, descending argument lists, 11-17 leaves (three blocks), aligned unions with undo, the interval (gap) family on 21 leaves, every two-deletion-block history on 7-8 leaves undone twice, large caches (257 .. 2600 leaves per Verify / Prune / block), blocks of 65536 additions, forests started from bare roots of accumulators with up to 2^63-4 leaves, and a rejected-call pass (false Verify / VerifyPartialProof with remember and Prune of uncached hashes after every operation).",
     "C05": STRUCT + "states reached through a restore or an undo, structured states on 8-17 leaves, rolled-back states, offset-start states.",
-    "C03": STRUCT + "offset-start states (up to 63 proof hashes) and the stale-claim family: instances with a history (blocks, one Verify(remember), one Undo) are offered every honest proof of the neighbouring state; and honest proofs extended by about 256 / 512 copies of a false nested claim.",
+    "C03": STRUCT + "offset-start states (up to 63 proof hashes) and the stale-claim family: instances with a history (blocks, one Verify(remember), one Undo) are offered every honest proof of the neighbouring state - leaf sets and internal nodes, through Verify and VerifyPartialProof, the remembered claim may be about an internal node; and honest proofs extended by about 256 / 512 copies of a false nested claim.",
     "C13": STRUCT + "a size sweep over every forest size 1..140/700 and size-query schedules (SerializeSize / GetTotalCount queried after no / block / undo / every operation), and map forests started from bare roots (up to 2^63-4 leaves) written and restored.",
-    "C15": STRUCT + "the same summaries with descending target lists, chains of 300 / 520 blocks and one history of 65548 blocks.",
+    "C15": STRUCT + "one tracker asked after every recorded block (every answer checked against the summaries so far), the same summaries with descending target lists, chains of 300 / 520 blocks and one history of 65548 blocks.",
     "C14": STRUCT + "target lists of 300-2600 leaves (evens, odds, halves, all).",
     "C16": STRUCT + "ProofPositions with exactly 256 and 65536 groups moving up from row 0.",
 }
